@@ -464,7 +464,7 @@ def build():
              "kind_free_text": "closure (fixpoint) search of small dictionary-like stores against a reference model"},
         ],
         "checks": checks,
-        "notes": "All checks run the real nanite code from /repo/src (no build step). Exit 0 = held, 1 = VIOLATION (every reported counterexample was re-executed and reproduced in a fresh interpreter), 2 = harness error (no verdict). known_findings.json lists genuine defects (fixed ones with their fix: commit). seeded/ holds 268 confirmed property-breaking changes with the checks' results (seeded/MATRIX.md); tools/seedtest.py re-runs them.",
+        "notes": "All checks run the real nanite code from /repo/src (no build step). Exit 0 = held, 1 = VIOLATION (every reported counterexample was re-executed and reproduced in a fresh interpreter), 2 = harness error (no verdict). known_findings.json lists genuine defects (fixed ones with their fix: commit). seeded/ holds 267 confirmed property-breaking changes with the checks' results (seeded/MATRIX.md); tools/seedtest.py re-runs them.",
         "not_applicable": [{"property_id": p, "reason": NA_REASON}
                            for p in ALL if p not in CHECKS],
     }
